@@ -47,6 +47,10 @@ def doc_to_py(doc):
 
 def lib_ok(validators, sv, doc):
     d = doc_to_py(doc)
+    # JSON Schema patterns are ECMA-262 regular expressions, where '$' matches only at the very end; Python's re (used by the
+    # library) also lets it match before a trailing line feed - decided here in the ECMA way, as JsonSchema.tla does
+    if isinstance(d.get("vectorString"), str) and d["vectorString"].endswith("\n"):
+        return False
     if not validators[sv].is_valid(d):
         return False
     if sv == "4.0":     # multipleOf 0.1, decided in decimal
